@@ -270,10 +270,13 @@ def gen_annotation(rng, ngenes=None, case=0):
                         if len(sp) == 1:
                             if sp[0] not in t.sec:
                                 t.sec.append(sp[0])
+                        elif any(a_ < sp[-1][1] and sp[0][0] < b_ for a_, b_ in t.sec):
+                            pass                       # this codon already carries its record(s)
                         elif rng.random() < 0.5:
-                            iv = (sp[0][0], sp[-1][1])
-                            if iv not in t.sec:
-                                t.sec.append(iv)       # record spanning the intron
+                            t.sec.append((sp[0][0], sp[-1][1]))      # record spanning the intron
+                        else:
+                            # GENCODE style: one partial record (1 + 2 or 2 + 1 nt) per exon piece
+                            t.sec.extend(sp)
                     t.sec.sort()
             if rng.random() < 0.6:
                 t.tags.insert(0, 'basic')
